@@ -173,6 +173,27 @@ def run_property(pid, tier):
             engine_faults.append(xc_note)
     if cvc5_stats["sat"]:
         engine_faults.append("cvc5 found a model for %d queries z3 answered unsat" % cvc5_stats["sat"])
+    # ---- spurious counter-models ---------------------------------------------------------------------------------
+    # A `sat` answer may rest on an interpretation of an uninterpreted library symbol that real Python does not have.
+    # Where the model's inputs can be fed to the real function (plain int/bytes parameters) and the real function SATISFIES
+    # the clause on them, the counter-model is spurious: the obligation is undecided, not violated.
+    from . import replay as _rp
+    kept = []
+    for q, o in violations:
+        spurious = False
+        if o.get("kind") in ("ensures", "raises") and o.get("model"):
+            try:
+                a = _rp.try_direct(q, o, repo)
+            except Exception:
+                a = None
+            ans = (a or {}).get("answer") or {}
+            if a is not None and ans.get("ok") and "clause_error" not in ans and ans.get("precondition_holds") and ans.get("clause_holds") is True:
+                spurious = True
+        if spurious:
+            undecided.append((q, o, "spurious counter-model: the real function satisfies the clause on the model's inputs %s" % str(o.get("model"))[:160]))
+        else:
+            kept.append((q, o))
+    violations = kept
     # ---- known findings ------------------------------------------------------------------------------------
     kf = load_known_findings()
     known_lines, real_violations = [], []
